@@ -55,10 +55,42 @@ def gen_inputs(ctx):
         root = parent(rng, k) if private else pub_parent(rng, k)
         out.append(("CkdSeq", {"root": root, "steps": steps, "prf": {"by_index": {str(ibad): out64(il_bad, rng)}}},
                     ("seq", private, il_bad >= N, ibad >= 2 ** 31)))
+    # an invalid step INSIDE a path request (derive_path; BIP85's derivation of its entropy key): the whole request
+    # fails - no neighbouring child is substituted.  The invalid step sits at every position of paths of length 1..4.
+    for _ in range(12 if q else 200):
+        k = rng.choice(parents)
+        private = rng.random() < 0.6
+        n = rng.randrange(1, 5)
+        pos = rng.randrange(n)
+        path = [rng.randrange(0, 2 ** 31) for _ in range(n)]
+        ibad = rng.randrange(0, 2 ** 31 - 1) if (not private or rng.random() < 0.5) else rng.randrange(2 ** 31, 2 ** 32 - 1)
+        while ibad in path or ibad + 1 in path:
+            ibad = rng.randrange(0, 2 ** 31 - 1)
+        path[pos] = ibad
+        # the invalid class must come from the step's own parent: IL >= n works for every parent
+        il_bad = rng.choice([N, N + 1, TOP])
+        d0 = rng.choice([0, 1, 2, 127])
+        root = parent(rng, k, depth=d0) if private else pub_parent(rng, k, depth=d0)
+        out.append(("DerivePath", {"root": root, "path": [idx4(i) for i in path], "prf": {"by_index": {str(ibad): out64(il_bad, rng)}}},
+                    ("path-fault", private, n, pos == 0, pos == n - 1)))
+    for app, p in (("mnemonic", 12), ("wif", 0), ("xprv", 0), ("hex", 32), ("pwd", 21)):
+        for _ in range(1 if q else 6):
+            k = rng.choice(parents)
+            ix = rng.randrange(0, 2 ** 31 - 1)
+            m = parent(rng, k, depth=0)
+            # BIP85 paths are all-hardened: the index component is ix + 2^31
+            out.append(("Bip85", {"master": m, "app": app, "p": p, "ix": {"mag": B(ix.to_bytes(5, "big")), "neg": False},
+                                  "prf": {"by_index": {str(ix + 2 ** 31): out64(rng.choice([N, TOP]), rng)}}},
+                        ("bip85-path-fault", app)))
     return out
 
 
 def describe(ev):
+    if ev["act"] == "DerivePath":
+        return "derive_path(%s) on a %s node, chosen PRF at one step" % (
+            [int.from_bytes(bytes(x), "big") for x in ev["inp"]["path"]], "private" if ev["inp"]["root"]["prv"] else "public")
+    if ev["act"] == "Bip85":
+        return "bip85.%s(index=%d), chosen PRF at the index step" % (ev["inp"]["app"], int.from_bytes(bytes(ev["inp"]["ix"]["mag"]), "big"))
     if ev["act"] == "CkdSeq":
         return "sequence on shared %s node: %s" % ("private" if ev["inp"]["root"]["prv"] else "public",
                                                      [(s["from"], int.from_bytes(bytes(s["i"]), "big")) for s in ev["inp"]["steps"]])
@@ -71,7 +103,8 @@ def describe(ev):
 def site(ev, clause):
     if ev["act"] == "CkdSeq":
         return "PrvKeyNode.ckd" if ev["inp"]["root"]["prv"] else "PubKeyNode.ckd"
-    return {"CkdPriv": "PrvKeyNode.ckd", "CkdPub": "PubKeyNode.ckd", "Master": "PrvKeyNode.master_key"}.get(ev["act"], ev["act"])
+    return {"CkdPriv": "PrvKeyNode.ckd", "CkdPub": "PubKeyNode.ckd", "Master": "PrvKeyNode.master_key",
+            "DerivePath": "derive_path", "Bip85": "BIP85DeterministicEntropy"}.get(ev["act"], ev["act"])
 
 
 def run(ctx):
